@@ -4,7 +4,7 @@ use crate::ast::*;
 pub fn walk_expr(x: &Expr, f: &mut dyn FnMut(&Expr)) {
     f(x);
     match &x.kind {
-        EKind::Int(_) | EKind::Float(_) | EKind::Str(_) | EKind::Bool(_) | EKind::Var(_) | EKind::MaybeNone => {}
+        EKind::Int(_) | EKind::Float(_) | EKind::Str(_) | EKind::Bool(_) | EKind::Var(_) | EKind::MaybeNone | EKind::Raw(_) => {}
         EKind::Bin(_, a, b) | EKind::AssertEq(a, b) => {
             walk_expr(a, f);
             walk_expr(b, f);
@@ -84,7 +84,7 @@ pub fn walk_stmt(s: &Stmt, f: &mut dyn FnMut(&Expr)) {
             walk_expr(a, f);
             walk_expr(b, f);
         }
-        Stmt::Break | Stmt::Continue | Stmt::Ret(None) | Stmt::Unreachable(_) => {}
+        Stmt::Break | Stmt::Continue | Stmt::Ret(None) | Stmt::Unreachable(_) | Stmt::Raw(_) => {}
     }
 }
 
